@@ -5,7 +5,7 @@ CONSTANTS
   Stateless = FALSE
   MaxSlots = 2
   MaxParked = 2
-  StoreModes = {"nopurge", "down"}
+  StoreModes = {}
 INVARIANTS MintOnlyOnCreate DeadStaysDead UserBound NoTimeoutDuringPost StatelessNoIds ClosedAndForgotten TimerDiscipline
 PROPERTIES MintStep AtMostOneSession DeadForever DeleteKills ResAlways
 VIEW MCView
